@@ -1,6 +1,6 @@
 (* conv.ml — conversions between OCaml ints/strings and the extracted Coq
    datatypes (nat, positive, N, Z stay Coq datatypes; see Extract.v). *)
-open Model
+open MODEL
 
 let rec pos_of_int (i : int) : positive =
   if i <= 1 then XH
@@ -25,3 +25,15 @@ let int_of_nat (x : nat) : int =
 
 let split_ws (s : string) : string list =
   List.filter (fun t -> t <> "") (String.split_on_char ' ' s)
+
+(* line driver: one case per line on stdin, one result line per case on stdout *)
+let main (run : string list -> string) : unit =
+  try
+    while true do
+      let line = input_line stdin in
+      let toks = split_ws line in
+      (match toks with
+       | [] -> print_endline ""
+       | _ -> print_endline (try run toks with e -> "MODEL-ERROR " ^ Printexc.to_string e))
+    done
+  with End_of_file -> ()
